@@ -24,7 +24,7 @@ fn cfg_small() -> CaseCfg {
 fn cfg_long() -> CaseCfg {
     CaseCfg {
         table: TableCfg { max_bin: 6, ..TableCfg::default() },
-        tree: TreeCfg { max_operands: 100, lit_pct: 35, unary_pct: 6, shape_weights: [3, 4, 2] },
+        tree: TreeCfg { max_operands: 100, lit_pct: 35, unary_pct: 6, shape_weights: [3, 4, 2], ..TreeCfg::default() },
         render: RenderCfg { redundant_paren_pct: 2, ..RenderCfg::default() },
         max_vars: 20,
         weird_pct: 3,
